@@ -23,6 +23,7 @@ func init() {
 }
 
 func runC08(c *core.Ctx) {
+	checkStateStoreKeyPrefixes(c)
 	pkM := "merkle"
 	hl := eng.Obj(c, pkM, "HashLeaf")
 	// ---- root and leaves
